@@ -16,6 +16,7 @@ RULE = ("scenario = 1..4 concurrent flows, random schedule of accepts, endpoint 
         "payload crossed the frame cut, a short write or would-block occurred, or >1 flow carried data; distinct = "
         "distinct step script")
 DRIVER_TARGETS = ['SshuttleModel.Code.Tunnel']
+DRIVERS = ['Tunnel']
 ASSUMPTIONS = [
     "sockets and the ssh pipe are reliable ordered byte streams; recv/send move an arbitrary prefix or would-block",
     "a socket that was shut down for writing refuses further data (EPIPE)",
